@@ -122,7 +122,7 @@ def run_case(case, stats):
                 root(s)
                 return s.tell()
 
-            r = gen.accepted_input(drng, p, start_len=24 + drng.randrange(40))
+            r = gen.accepted_input(drng, p, start_len=24 + drng.randrange(40), stats=stats)
             if r is None:
                 raise Discard("no_accepted_input")
             th["data"] = r[0][: r[1] + drng.randrange(4)].hex()
